@@ -160,7 +160,8 @@ def run(ctx):
         # the request written is one dequeued in this very activation (so it went through the closed check just now): it is not taken from a place where it
         # was parked across polls, where the caller may have abandoned it in the meantime
         for a in st_['args'][1:]:
-            rs = deep_roots(P, P.operand(g, a, at=sbb))
+            from .common import lifter
+            rs = deep_roots(P, lifter(F, P, reach)(g, P.operand(g, a, at=sbb)))
             src = [(r, p) for r, p in rs if P.unbound(r)[0] in ('call', 'param')]
             fresh = bool(src) and all(P.is_call(r, 'mpsc::Receiver::poll_recv') or P.is_call(r, 'context::Context::current', 'Instant::now', 'trace::Context::new_child', 'Span::current')
                                       or (P.unbound(r)[0] == 'call' and not callee_is(P.call_term(P.unbound(r)), 'Option::take', 'mem::take', 'mem::replace', 'Option::replace', 'VecDeque::pop_front', 'Vec::pop'))
